@@ -4,7 +4,7 @@
    hypothesis below, are explored by the correspondence over edited texts x every cursor position
    (a text that produces such a shape makes the model predict the crash, and is reported). *)
 From Coq Require Import Permutation.
-From NS Require Import Check Hover CheckProofs CheckNoPanic.
+From NS Require Import Check Hover CheckProofs CheckNoPanic Lexer Parser NestedParse.
 
 (* static analysis, symbol listing, hover and go-to-definition never panic on a raw tree -- every
    optional field possibly missing, in any combination -- as long as it has none of the four shapes
@@ -25,7 +25,18 @@ Theorem C18_check_order_independent : forall p pd perm cs,
   exists cs0, check_default p pd = Ok cs0 /\ Permutation (cs_diags cs) (cs_diags cs0) /\ cs_declared cs = cs_declared cs0.
 Proof. exact check_order_independent. Qed.
 
+(* for every text the reference parser accepts - not only for abstract trees - the analysis and the
+   hover traversal at every position are panic-free (the tree of an accepted text has none of the
+   excluded shapes: Proofs/NestedParse.v) *)
+Theorem C18_accepted_text_no_panic : forall text p pd perm pos w,
+  parse_text text = Parsed p -> check_program p pd perm <> Panic w /\ hover_on p pos <> Panic w.
+Proof.
+  intros text p pd perm pos w H. pose proof (proj2 (accepted_text_nested text p H)) as S.
+  split; [exact (check_program_no_panic p pd perm w S)|exact (hover_on_no_panic p pos w S)].
+Qed.
+
 Print Assumptions C18_check_no_panic.
+Print Assumptions C18_accepted_text_no_panic.
 Print Assumptions C18_hover_no_panic.
 Print Assumptions C18_check_order_independent.
 
